@@ -787,3 +787,261 @@ theorem convFuncCallM_carries (e : Env) (r : Rec) (hrM : RecOKM r QM) (ctx : Ctx
   simpa [specAllL_cons] using hdc.app hda'
 
 end Typstyle
+
+namespace Typstyle
+open Twin
+variable {Q QM : ANode → Prop}
+
+/-! ### a row of two-dimensional math arguments (implicit array) -/
+
+def rowChildOK (QM : ANode → Prop) (x : ANode) : Prop :=
+  ANode.tokensAreLeaves x = true ∧ ((isExpr x = true ∧ QM x) ∨ isCommentKind x.kind = true ∨ isIgnorable x = true)
+
+theorem convArrayItem_okM (e : Env) (r : Rec) (hrM : RecOKM r QM) :
+    CheckerS (convArrayItem e r) specAll (rowChildOK QM) (fun c => c.mode = .math) := by
+  intro c x hm hok
+  unfold convArrayItem
+  have hns : (x.kind == .spread) = false := by
+    rcases hok.2 with h | h | h
+    · have : x.kind.isExpr = true := h.1
+      cases hk : x.kind <;> simp_all [Kind.isExpr]
+    · cases hk : x.kind <;> simp_all [isCommentKind]
+    · unfold isIgnorable at h
+      cases hk : x.kind <;> simp_all [Kind.fixedText]
+  simp only [hns, Bool.false_eq_true, ↓reduceIte]
+  split
+  · rename_i hx
+    rcases hok.2 with h | h | h
+    · exact Post.bind (hrM.expr c x hm hx h.2) (fun d hd => Post.pure hd)
+    · exfalso
+      have : x.kind.isExpr = true := hx
+      cases hk : x.kind <;> simp_all [Kind.isExpr, isCommentKind]
+    · exfalso
+      have : x.kind.isExpr = true := hx
+      unfold isIgnorable at h
+      cases hk : x.kind <;> simp_all [Kind.isExpr, Kind.fixedText]
+  · rename_i hx
+    refine Post.pure ?_
+    show specAll x = triviaS x
+    rcases hok.2 with h | h | h
+    · exact absurd h.1 hx
+    · exact triviaS_comment x hok.1 h
+    · exact triviaS_ignorable x hok.1 h
+
+/-- **`convert_array` on a row of math arguments** (no parentheses): in math mode. -/
+theorem convArrayM_carries (e : Env) (r : Rec) (hrM : RecOKM r QM) (ctx : Ctx) (hm : ctx.mode = .math)
+    (cs : List ANode) (a : Attrs) (hda : a.disabled = false)
+    (himp : (cs.head?.map (·.kind == .leftParen)).getD false = false)
+    (hall : ∀ x ∈ cs, rowChildOK QM x) :
+    Post (convArray e r ctx (.inner .array cs a)) (fun d => Carries d (specAll (.inner .array cs a))) := by
+  have hv : isVerbatimNode .array cs a = false := by simp [isVerbatimNode, hda]
+  rw [specAll_inner .array cs a hv (by decide)]
+  unfold convArray
+  simp only [ANode.children, himp, Bool.false_eq_true, ↓reduceIte, Bool.not_false, Bool.true_and]
+  have hnh : ∀ x ∈ cs, x.kind ≠ .hash := by
+    intro x hx hh
+    rcases (hall x hx).2 with h | h | h
+    · have : x.kind.isExpr = true := h.1
+      rw [hh] at this; cases this
+    · rw [hh] at h; cases h
+    · unfold isIgnorable at h; rw [hh] at h; cases h
+  have hp := soft_paren e
+  exact list_construct_carries e ctx (convArrayItem e r) (rowChildOK QM) (convArrayItem_okM e r hrM) hm _ ⟨rfl, rfl, rfl⟩
+    id (fun _ => rfl) _ hp.2.2.1 Carries.nil Carries.nil cs hall hnh
+
+end Typstyle
+
+namespace Typstyle
+open Twin
+variable {Q QM : ANode → Prop}
+
+/-! ### math arguments with white space inside the parentheses -/
+
+theorem tokensAreLeavesL_of_mem {l : List ANode} (h : ∀ x ∈ l, ANode.tokensAreLeaves x = true) :
+    ANode.tokensAreLeavesL l = true := by
+  induction l with
+  | nil => rfl
+  | cons c cs ih =>
+    simp only [ANode.tokensAreLeavesL, Bool.and_eq_true]
+    exact ⟨h c List.mem_cons_self, ih (fun x hx => h x (List.mem_cons_of_mem _ hx))⟩
+
+theorem specAllL_spaces (sp : List ANode) (hlex : ANode.tokensAreLeavesL sp = true) (h : ∀ x ∈ sp, x.kind = .space) :
+    specAllL sp = {} := by
+  induction sp with
+  | nil => rfl
+  | cons c cs ih =>
+    simp only [ANode.tokensAreLeavesL, Bool.and_eq_true] at hlex
+    rw [specAllL_cons, specAll_space c hlex.1 (h c List.mem_cons_self), ih hlex.2 (fun x hx => h x (List.mem_cons_of_mem _ hx))]
+    rfl
+
+theorem findIdx?_spaces_left (sp : List ANode) (h : ∀ x ∈ sp, x.kind = .space) :
+    sp.findIdx? (fun c => !(c.kind == .leftParen || c.kind == .space)) = none := by
+  rw [List.findIdx?_eq_none_iff]
+  intro x hx; simp [h x hx]
+
+theorem findIdx?_spaces_right (sp : List ANode) (h : ∀ x ∈ sp, x.kind = .space) :
+    sp.findIdx? (fun c => !(c.kind == .rightParen || c.kind == .space)) = none := by
+  rw [List.findIdx?_eq_none_iff]
+  intro x hx; simp [h x hx]
+
+/-- **`convert_args_in_math`**: `(`, white space, content, white space, `)`. -/
+theorem convArgsInMath_carries_sp (e : Env) (r : Rec) (hr : RecOK r Q) (hrM : RecOKM r QM) (ctx : Ctx) (hm : ctx.mode = .math)
+    (lp rp : ANode) (sp1 mid sp2 : List ANode) (a : Attrs)
+    (hlp : lp.kind = .leftParen) (hrp : rp.kind = .rightParen)
+    (hlex : ANode.tokensAreLeavesL (lp :: (sp1 ++ (mid ++ (sp2 ++ [rp])))) = true)
+    (hs1 : ∀ x ∈ sp1, x.kind = .space) (hs2 : ∀ x ∈ sp2, x.kind = .space)
+    (hhead : ∀ c, mid.head? = some c → (c.kind == .leftParen || c.kind == .space) = false)
+    (hlast : ∀ c, mid.getLast? = some c → (c.kind == .rightParen || c.kind == .space) = false)
+    (hempty : mid = [] → sp2 = [])
+    (hseq : MathSeqOK Q QM false mid) :
+    Post (convArgsInMath e r ctx (.inner .args (lp :: (sp1 ++ (mid ++ (sp2 ++ [rp])))) a))
+      (fun d => Carries d (specAll (.inner .args (lp :: (sp1 ++ (mid ++ (sp2 ++ [rp])))) a))) := by
+  have hv : isVerbatimNode .args (lp :: (sp1 ++ (mid ++ (sp2 ++ [rp])))) a = false := by simp [isVerbatimNode, Kind.isExpr]
+  have hlex' := hlex
+  simp only [ANode.tokensAreLeavesL, Bool.and_eq_true] at hlex'
+  have hlexparts : ANode.tokensAreLeavesL sp1 = true ∧ ANode.tokensAreLeavesL sp2 = true ∧ ANode.tokensAreLeaves rp = true := by
+    refine ⟨?_, ?_, ?_⟩
+    · exact tokensAreLeavesL_of_mem (fun x hx => tokensAreLeavesL_mem hlex'.2 (by simp [hx]))
+    · exact tokensAreLeavesL_of_mem (fun x hx => tokensAreLeavesL_mem hlex'.2 (by simp [hx]))
+    · exact tokensAreLeavesL_mem hlex'.2 (by simp)
+  rw [specAll_inner .args _ a hv (by decide), specAllL_cons, specAllL_append, specAllL_append, specAllL_append, specAllL_cons,
+    specAllL_nil, specAll_delim lp hlex'.1 (by rw [hlp]; rfl), specAll_delim rp hlexparts.2.2 (by rw [hrp]; rfl),
+    specAllL_spaces sp1 hlexparts.1 hs1, specAllL_spaces sp2 hlexparts.2.1 hs2]
+  simp only [Streams.empty_app, Streams.app_empty]
+  -- the slice `children[i..=j]` is the content
+  have hslice : ∀ (i j : Nat),
+      (lp :: (sp1 ++ (mid ++ (sp2 ++ [rp])))).findIdx? (fun c => !(c.kind == .leftParen || c.kind == .space)) = some i →
+      (lp :: (sp1 ++ (mid ++ (sp2 ++ [rp])))).reverse.findIdx? (fun c => !(c.kind == .rightParen || c.kind == .space)) = some j →
+      (if (decide (i > (lp :: (sp1 ++ (mid ++ (sp2 ++ [rp])))).length - 1 - j + 1) ||
+          decide ((lp :: (sp1 ++ (mid ++ (sp2 ++ [rp])))).length - 1 - j ≥ (lp :: (sp1 ++ (mid ++ (sp2 ++ [rp])))).length)) = true then []
+        else List.take ((lp :: (sp1 ++ (mid ++ (sp2 ++ [rp])))).length - 1 - j + 1 - i) (List.drop i (lp :: (sp1 ++ (mid ++ (sp2 ++ [rp])))))) = mid := by
+    intro i j hi hj
+    have hlen : (lp :: (sp1 ++ (mid ++ (sp2 ++ [rp])))).length = sp1.length + mid.length + sp2.length + 2 := by
+      simp only [List.length_cons, List.length_append, List.length_nil]; omega
+    by_cases hmid : mid = []
+    · -- nothing but white space between the parentheses
+      have hsp2 := hempty hmid
+      subst hmid; subst hsp2
+      have hi' : i = sp1.length + 1 := by
+        rw [List.findIdx?_cons] at hi
+        simp only [hlp, beq_self_eq_true, Bool.true_or, Bool.not_true, Bool.false_eq_true, ↓reduceIte, List.nil_append,
+          List.findIdx?_append, findIdx?_spaces_left sp1 hs1, Option.none_or] at hi
+        simp [List.findIdx?_cons, hrp] at hi
+        omega
+      have hj' : j = sp1.length + 1 := by
+        simp only [List.nil_append, List.reverse_cons, List.reverse_append, List.reverse_nil, List.singleton_append,
+          List.cons_append] at hj
+        rw [List.findIdx?_cons] at hj
+        simp only [hrp, beq_self_eq_true, Bool.true_or, Bool.not_true, Bool.false_eq_true, ↓reduceIte,
+          List.findIdx?_append, findIdx?_spaces_right sp1.reverse (fun x hx => hs1 x (List.mem_reverse.mp hx)), Option.none_or] at hj
+        simp [List.findIdx?_cons, hlp] at hj
+        omega
+      subst hi'; subst hj'
+      rw [hlen]
+      simp only [List.length_nil, Nat.add_zero]
+      by_cases h0 : sp1.length = 0
+      · have : sp1 = [] := List.length_eq_zero_iff.mp h0
+        subst this
+        simp
+      · have : (decide (sp1.length + 1 > sp1.length + 2 - 1 - (sp1.length + 1) + 1) ||
+            decide (sp1.length + 2 - 1 - (sp1.length + 1) ≥ sp1.length + 2)) = true := by
+          simp only [Bool.or_eq_true, decide_eq_true_eq]; omega
+        rw [this]; rfl
+    · obtain ⟨m0, ms, hm0⟩ : ∃ m0 ms, mid = m0 :: ms := by
+        cases mid with
+        | nil => exact absurd rfl hmid
+        | cons m0 ms => exact ⟨m0, ms, rfl⟩
+      have hh := hhead m0 (by rw [hm0]; rfl)
+      simp only [Bool.or_eq_false_iff, beq_eq_false_iff_ne, ne_eq] at hh
+      have hi' : i = sp1.length + 1 := by
+        rw [List.findIdx?_cons] at hi
+        simp only [hlp, beq_self_eq_true, Bool.true_or, Bool.not_true, Bool.false_eq_true, ↓reduceIte,
+          List.findIdx?_append, findIdx?_spaces_left sp1 hs1, Option.none_or] at hi
+        rw [hm0] at hi
+        simp [List.findIdx?_cons, hh] at hi
+        omega
+      obtain ⟨ml, mr, hml⟩ : ∃ ml mr, mid.reverse = ml :: mr := by
+        cases hr' : mid.reverse with
+        | nil => exact absurd (List.reverse_eq_nil_iff.mp hr') hmid
+        | cons ml mr => exact ⟨ml, mr, rfl⟩
+      have hgl : mid.getLast? = some ml := by rw [← List.head?_reverse, hml]; rfl
+      have hl := hlast ml hgl
+      simp only [Bool.or_eq_false_iff, beq_eq_false_iff_ne, ne_eq] at hl
+      have hj' : j = sp2.length + 1 := by
+        simp only [List.reverse_cons, List.reverse_append, List.reverse_nil, List.nil_append, List.singleton_append,
+          List.cons_append, List.append_assoc] at hj
+        rw [List.findIdx?_cons] at hj
+        simp only [hrp, beq_self_eq_true, Bool.true_or, Bool.not_true, Bool.false_eq_true, ↓reduceIte,
+          List.findIdx?_append, findIdx?_spaces_right sp2.reverse (fun x hx => hs2 x (List.mem_reverse.mp hx)), Option.none_or] at hj
+        rw [hml] at hj
+        simp [List.findIdx?_cons, hl] at hj
+        omega
+      subst hi'; subst hj'
+      rw [hlen]
+      have h1 : (decide (sp1.length + 1 > sp1.length + mid.length + sp2.length + 2 - 1 - (sp2.length + 1) + 1) ||
+          decide (sp1.length + mid.length + sp2.length + 2 - 1 - (sp2.length + 1) ≥ sp1.length + mid.length + sp2.length + 2)) = false := by
+        simp only [Bool.or_eq_false_iff, decide_eq_false_iff_not]; omega
+      rw [h1]
+      simp only [Bool.false_eq_true, ↓reduceIte]
+      have h2 : sp1.length + mid.length + sp2.length + 2 - 1 - (sp2.length + 1) + 1 - (sp1.length + 1) = mid.length := by omega
+      rw [h2]
+      have h3 : List.drop (sp1.length + 1) (lp :: (sp1 ++ (mid ++ (sp2 ++ [rp])))) = mid ++ (sp2 ++ [rp]) := by
+        rw [List.drop_succ_cons, List.drop_left' rfl]
+      rw [h3, List.take_left' rfl]
+  unfold convArgsInMath
+  simp only [ANode.children]
+  -- both searches succeed
+  have hi : ∃ i, (lp :: (sp1 ++ (mid ++ (sp2 ++ [rp])))).findIdx? (fun c => !(c.kind == .leftParen || c.kind == .space)) = some i := by
+    cases h : (lp :: (sp1 ++ (mid ++ (sp2 ++ [rp])))).findIdx? (fun c => !(c.kind == .leftParen || c.kind == .space)) with
+    | some i => exact ⟨i, rfl⟩
+    | none =>
+      rw [List.findIdx?_eq_none_iff] at h
+      have := h rp (by simp)
+      simp [hrp] at this
+  have hj : ∃ j, (lp :: (sp1 ++ (mid ++ (sp2 ++ [rp])))).reverse.findIdx? (fun c => !(c.kind == .rightParen || c.kind == .space)) = some j := by
+    cases h : (lp :: (sp1 ++ (mid ++ (sp2 ++ [rp])))).reverse.findIdx? (fun c => !(c.kind == .rightParen || c.kind == .space)) with
+    | some j => exact ⟨j, rfl⟩
+    | none =>
+      rw [List.findIdx?_eq_none_iff] at h
+      have := h lp (by simp)
+      simp [hlp] at this
+  obtain ⟨i, hi⟩ := hi
+  obtain ⟨j, hj⟩ := hj
+  simp only [hi, hj, Option.getD_some, hslice i j hi hj]
+  have hflow := flowM_carriesH (sem := specAll) (commentOK e) (mathArgProducer_ok e r hr hrM)
+    (fun cc c hok hk => okM_space cc c hok hk) mid (mathSeq_okSeq ctx hm mid false hseq) false
+  rw [contribL_specAll _ (mathSeq_lex mid false hseq)] at hflow
+  refine Post.bind hflow (fun inner hin => ?_)
+  have hp := syn_paren e
+  split
+  · have key : ∀ cl : Doc, Carries cl {} →
+        Carries ((((Twin.line_ ++ inner).nstTab ++ cl).grp).enclose (e.syn "(") (e.syn ")")) (specAllL mid) := by
+      intro cl hcl
+      have := ((((Carries.line_.app hin).nstTab).app hcl).grp).enclose hp.1 hp.2
+      simpa using this
+    refine Post.pure (key _ ?_)
+    split
+    · split
+      · exact Carries.hardline
+      · exact Carries.line_
+    · exact Carries.line_
+  · exact Post.pure (by simpa using hin.enclose hp.1 hp.2)
+
+end Typstyle
+
+namespace Typstyle
+variable {Q QM : ANode → Prop}
+
+theorem mathSeq_drop_spaces (sp l : List ANode) (hs : ∀ x ∈ sp, x.kind = .space) :
+    ∀ hh, MathSeqOK Q QM hh (sp ++ l) → MathSeqOK Q QM (if sp.isEmpty then hh else false) l := by
+  induction sp with
+  | nil => intro hh h; simpa using h
+  | cons c cs ih =>
+    intro hh h
+    simp only [List.cons_append, MathSeqOK] at h
+    have hk : (c.kind == .hash) = false := by rw [hs c List.mem_cons_self]; rfl
+    rw [hk] at h
+    have := ih (fun x hx => hs x (List.mem_cons_of_mem _ hx)) false h.2.2
+    simpa using this
+
+end Typstyle
